@@ -386,7 +386,7 @@ fn run(ctx: &Ctx) {
         check,
     );
     let strat = || Box::new((value_strategy(4), prop::collection::vec(any::<u16>(), 0..16), prop::collection::vec(any::<u16>(), 0..12), prop::collection::vec(any::<u16>(), 0..6)).prop_map(|(value, order, nested_order, limits)| Case { value, order, nested_order, limits }));
-    ctx.run_proptest_with("random-interleavings", ctx.tier.pick(400_000, 4_000_000), strat, check);
+    ctx.run_proptest_with("random-interleavings", ctx.tier.pick(600_000, 5_000_000), strat, check);
 }
 
 fn replay(_stage: &str, case: &Value) -> Result<Verdict, String> {
